@@ -22,7 +22,7 @@ RULE = ("every string-literal position (29 base positions x 8 wrappers: plain, t
         "executed and compared with R-EVAL, a canary table must survive. non-trivial = payloads containing at least one "
         "SQL/LIKE metacharacter.")
 ASSUMPTIONS = ["standard SQL lexing (no backslash escapes in string literals) as in SQL-99, SQLite and Trino/Athena",
-               "a trailing  ESCAPE '\\'  directly after a LIKE pattern literal is treated as an attribute of that literal (fixed, payload-independent text)"]
+               "a trailing  ESCAPE '<one character>'  directly after a LIKE pattern literal is treated as an attribute of that literal (a one-character literal cannot carry a payload); the pattern body must stand for the payload under that escape character"]
 
 SIGMA = ["'", '"', "\\", "%", "_", "-", ";", "/", "*", "\x00", "\n", "\u2019", "\u02bc", " ", "a", "(", ")", "|", ","]
 # payloads that LOOK like another literal kind (date, date-time, number, GUID, keyword, duration) followed by an attack suffix:
@@ -117,19 +117,37 @@ def translate(text, dialect, alias):
         return ("foreign", type(e).__name__ + ":" + str(e)[:80])
 
 
-def fold_escape(toks):
-    """fold  <str> ESCAPE '\\'  into the pattern literal (see ASSUMPTIONS)"""
+def fold_escape(toks, escs=None):
+    """fold  <str> ESCAPE '<one character>'  into the pattern literal (see ASSUMPTIONS); escs (optional dict) receives
+    {index of the pattern literal in the folded list: its escape character}"""
     out = []
     i = 0
     while i < len(toks):
         t = toks[i]
-        if (t.kind == "word" and t.value == "ESCAPE" and out and out[-1][0] == "str" and i + 1 < len(toks)
-                and toks[i + 1].kind == "str" and toks[i + 1].value == "\\"):
+        if (t.kind == "word" and t.value.upper() == "ESCAPE" and out and out[-1][0] == "str" and i + 1 < len(toks)
+                and toks[i + 1].kind == "str" and len(toks[i + 1].value) == 1):
+            if escs is not None:
+                escs[len(out) - 1] = toks[i + 1].value
             i += 2
             continue
         out.append(t)
         i += 1
     return out
+
+
+def like_unescape(p, esc):
+    """the text a LIKE pattern body stands for when esc-X means a literal X; None when the body ends in a dangling escape"""
+    out, i = [], 0
+    while i < len(p):
+        if p[i] == esc:
+            if i + 1 >= len(p):
+                return None
+            out.append(p[i + 1])
+            i += 2
+        else:
+            out.append(p[i])
+            i += 1
+    return "".join(out)
 
 
 def like_escape(p):
@@ -148,7 +166,8 @@ def judge_pair(acc, pos, payload, dialect, alias, text_p, res_p, res_x, nocc=1):
         else:
             acc.outcome(("refused", dialect, res_p[1]))
         return
-    tp = fold_escape(sqllex.lex(res_p[1]))
+    escs = {}
+    tp = fold_escape(sqllex.lex(res_p[1]), escs)
     tx = fold_escape(sqllex.lex(res_x[1]))
     bad = sqllex.bad_tokens(tp)
     if bad:
@@ -166,7 +185,9 @@ def judge_pair(acc, pos, payload, dialect, alias, text_p, res_p, res_x, nocc=1):
         k = vx.find("x")
         pre, suf = vx[:k], vx[k + 1:]
         inner = vp[len(pre):len(vp) - len(suf)] if len(suf) else vp[len(pre):]
-        if k < 0 or not (vp.startswith(pre) and vp.endswith(suf) and inner in (payload, like_escape(payload))):
+        # the literal carries the payload itself, or - when an ESCAPE clause follows - a pattern body that stands for the payload
+        ok = inner == payload or (i in escs and like_unescape(inner, escs[i]) == payload)
+        if k < 0 or not (vp.startswith(pre) and vp.endswith(suf) and ok):
             acc.violation("literal-value:%s" % dialect, dict(info, sql=res_p[1], literal=vp, expected_inner=[payload, like_escape(payload)]))
             return
     acc.outcome(("ok", dialect, len(diff)))
